@@ -87,6 +87,8 @@ func init() {
 		Quick: []Job{
 			replies("binary-pipeline2", map[string]int64{"pipeline": 2}, c08only, rb8),
 			replies("text-pipeline2", map[string]int64{"pipeline": 2, "text": 1}, c08only, rb8),
+			replies("binary-get-after-failed-multiget", map[string]int64{"pipeline": 2, "getfault": 1}, c08only, "a 2-key quiet-get batch during which backend call 0 or 1 on L1 fails with ERROR Busy (error reply, connection kept), then a single-key get: it is answered in full, terminator included; 9 orchestrator configurations"),
+			replies("text-get-after-failed-multiget", map[string]int64{"pipeline": 2, "getfault": 1, "text": 1}, c08only, "the same over the text protocol with gets of 2-3 keys followed by a 1-key get"),
 		},
 		Thorough: []Job{
 			replies("binary-3keys-2bytes", map[string]int64{"pipeline": 2, "nk": 3, "dlen": 2, "len0": 3}, c08only, "as quick with 3 keys, stored values 3 bytes, written values 2 bytes"),
